@@ -18,6 +18,10 @@ type Options struct {
 	// starts with "pad"/"zero"/"reserved" are skipped; fields listed in Skip are skipped.
 	Normalise bool
 	Skip      map[string]bool
+	// ExportedOnly: unexported struct fields are not printed ("observable field values").
+	ExportedOnly bool
+	// FieldHook, when set, may print a struct field itself (return true) instead of the default.
+	FieldHook func(structName, fieldName string, v reflect.Value) (string, bool)
 }
 
 var tIP = reflect.TypeOf(net.IP{})
@@ -75,6 +79,9 @@ func (d *dumper) val(v reflect.Value, depth int) {
 			if d.o.Skip[name] || d.o.Skip[t.Name()+"."+name] {
 				continue
 			}
+			if d.o.ExportedOnly && t.Field(i).PkgPath != "" {
+				continue
+			}
 			if d.o.Normalise {
 				ln := strings.ToLower(name)
 				if strings.HasPrefix(ln, "pad") || strings.HasPrefix(ln, "zero") || strings.HasPrefix(ln, "reserved") {
@@ -82,6 +89,12 @@ func (d *dumper) val(v reflect.Value, depth int) {
 				}
 			}
 			d.b.WriteString(name + ":")
+			if d.o.FieldHook != nil {
+				if s, ok := d.o.FieldHook(t.Name(), name, v.Field(i)); ok {
+					d.b.WriteString(s + " ")
+					continue
+				}
+			}
 			d.val(v.Field(i), depth+1)
 			d.b.WriteString(" ")
 		}
